@@ -81,9 +81,13 @@ def h_submit(shapes=("chain3",), bss=(1, 2), maxns=(None, 1), tas=(True,), time_
              cancel_flags=True, lost=False, local=False, procs=None, max_steps=60, max_recoveries=None, rcs=(0, 1),
              hooks=False, est_choices=(1, 5), wall="0:10:00", dry_run=False):
     def harness(ex):
+        from world.world import Hang
+
         w = setup_world(ex)
         try:
             _run(ex, w)
+        except Hang as e:
+            ex.check(False, "C05: a JADE process did not terminate (no return within the wall-clock deadline)", what=str(e)[:200])
         finally:
             w.close()
 
